@@ -10,6 +10,11 @@ fn op_skipped(a: &Analysis, op: usize) -> bool {
     matches!(&a.panicked, Some((p, _)) if *p == op) || a.ops.get(op).map(|o| o.quiescent.is_none()).unwrap_or(true)
 }
 
+fn reader_names(bits: u32) -> String {
+    const N: [&str; 11] = ["bc0", "bc1", "ee0", "ee1", "ins0", "ins1", "mut0", "mut1", "rem0", "rem1", "desp"];
+    (0..11).filter(|i| bits & (1 << i) != 0).map(|i| N[i]).collect::<Vec<_>>().join("+")
+}
+
 fn seen_kind(s: &Seen) -> &'static str {
     match s {
         Seen::Bc(..) => "broadcast",
@@ -54,6 +59,15 @@ pub fn c03(cx: &Ctx) -> (Vec<Violation>, Cover) {
                 "C03",
                 format!("C03/impure/{}", kinds.join("+")),
                 format!("run {} of instance {} sees {} events at once: {:?}", r.run, r.inst, seen.len(), seen),
+                r.pos,
+            ));
+        }
+        // `is_empty` / `read` / `entity` / `get_entity` agree with `try_read` / `get`
+        if r.obs.forms_disagree != 0 {
+            v.push(Violation::new(
+                "C03",
+                format!("C03/reader-forms-disagree/{}", reader_names(r.obs.forms_disagree)),
+                format!("run {} of instance {}: the convenience forms of readers {} do not agree with the fallible form ({:?})", r.run, r.inst, reader_names(r.obs.forms_disagree), seen),
                 r.pos,
             ));
         }
@@ -213,6 +227,14 @@ pub fn c04(cx: &Ctx) -> (Vec<Violation>, Cover) {
         }
         if a.runner_depth.get(pos).copied().unwrap_or(0) >= 2 {
             cov.count("probes_inside_reaction", 1);
+        }
+        if obs.forms_disagree != 0 {
+            v.push(Violation::new(
+                "C04",
+                format!("C04/probe-reader-forms-disagree/{}", reader_names(obs.forms_disagree)),
+                format!("probe queued by run {}: `is_empty` and friends of readers {} disagree with the fallible form", c.run, reader_names(obs.forms_disagree)),
+                pos,
+            ));
         }
         if obs.count() > 0 || obs.second_take() {
             v.push(Violation::new(
